@@ -13,7 +13,7 @@ from __future__ import annotations
 
 import ast
 
-from ..atsq import cfg_of, ename, mode_of, rec_field, step_of
+from ..atsq import cfg_of, ename, mode_of, rec_field, step_of, state_of
 from ..core import Ctx, Evidence, Finding, witness_of
 from ..model import AnalysisError, loc, norm
 from ..values import E, Pdu, Rec, Sym
@@ -155,4 +155,31 @@ def check(ctx: Ctx, ev: Evidence) -> list[Finding]:
                 out.append(Finding("C01-R4", f"source | {norm(n)[:80]}", "the sender's finished parameters are taken from something other than the received Finished PDU", f"{sm.path}:{n.lineno}"))
     ev.extra["explanation"] = "every store of DATA_COMPLETE and every entry into the completion step on the destination handler's ATS edges; every Metadata/EOF construction, checksum call and Transaction-Finished indication of the source handler's ATS edges"
     ev.assume("NOT decided: byte identity itself (needs exact lost-segment bookkeeping - C18 -, a filestore that writes what it is given - C17 -, and CRC collision freedom)")
+    # ---- R5: the checksum type that decides the verification is the one of the Metadata PDU actually accepted - on every
+    # path a Metadata PDU is taken up (first PDU, or recovered after File Data / EOF arrived first)
+    ev.rule("C01-R5", "every call that takes up a Metadata PDU records its checksum type and closure flag (whichever entry path)", 2)
+    groups: dict[str, dict] = {}
+    for e in a.edges:
+        if e.label != ("state_machine", "METADATA") or e.exc is not None:
+            continue
+        if not any(x.kind == "env" and x.name == "user.metadata_recv_indication" for x in e.ev):
+            continue
+        entry = "as the first PDU" if state_of(a, e.pre) == "IDLE" else "after other PDUs of the transaction (recovered Metadata)"
+        g = groups.setdefault(entry, {"ok": 0, "bad": 0, "edge": None, "missing": set()})
+        stored = {x.name.split(".")[-1] for x in e.ev if x.kind == "store"}
+        miss = {f for f in ("checksum_type", "closure_requested") if f not in stored}
+        if miss:
+            g["bad"] += 1
+            g["missing"] |= miss
+            g["edge"] = g["edge"] or e
+        else:
+            g["ok"] += 1
+    if not groups:
+        raise AnalysisError("no Metadata-accepting edge in the destination ATS")
+    for entry, g in sorted(groups.items()):
+        ok = g["bad"] == 0
+        ev.inst("C01-R5", f"dest handler | Metadata taken up {entry}: checksum type and closure flag recorded on {g['ok']} edges, missing on {g['bad']}", "ok" if ok else "violation")
+        if not ok:
+            out.append(Finding("C01-R5", f"dest handler | Metadata taken up {entry} without recording {sorted(g['missing'])}",
+                               f"a Metadata PDU taken up {entry} does not record {sorted(g['missing'])}: the completion check runs with the default (null) checksum type and reports success without verifying the file", "", witness_of(a, g["edge"])))
     return out
